@@ -105,6 +105,7 @@ class Net:
         self.sockets = []
         self.net_op_index = 0       # counts connect/start_tls/read/write
         self.pending = []           # gated mode: parked operations
+        self.ungated_ops = {"close"}   # operations that complete at once even in gated mode
 
     # -- ledger ---------------------------------------------------------------------------
     def open_sockets(self):
@@ -305,7 +306,7 @@ class AsyncSimStream(httpcore.AsyncNetworkStream):
 
 
 async def _gate(net, rec):
-    if not net.gated:
+    if not net.gated or rec["op"] in net.ungated_ops:
         return
     import anyio
     p = Parked(rec, anyio.Event())
